@@ -1833,6 +1833,9 @@ def generate(vc_path, prelude_path, out_path):
         f["calls"] = sorted(calls)
         # text-formatting macros no rule gave a meaning to (Verus takes them as "any string"): the runner does not attribute a failing clause of such a function to the property
         f["unmodelled"] = sorted(set(re.findall(r"(?<![A-Za-z0-9_])(format|format_args|write|writeln)!\s*\(", b)))
+        # does the body build a text by other means than the modelled format! (push_str, push of a char, join, concatenation)?  Verus gives these their concrete meaning, which can
+        # never be related to the uninterpreted model of format! - see verus_unit.lost_models
+        f["builds_text"] = bool(re.search(r"\.push_str\s*\(|\.push\s*\(\s*'|\.join\s*\(|concat!|\+\s*&|\+\s*\"|\.to_owned\(\)\s*\+|String::with_capacity", b))
     prelude = open(prelude_path, encoding="utf-8").read()
     n_pre = prelude.count("\n")
     text = prelude + body
